@@ -634,7 +634,7 @@ pub fn run(ctx: &Ctx) -> Report {
         let aref = &apps;
         let r = par_cases(ctx, "C20", "inside-tls", apps.len() as u64, |rng, i, rep| {
             let (what, app) = &aref[i as usize];
-            let c = super::c18::TlsCase { tls13: rng.bool(), with_cert: false, server_mode: 0, user: b"tlsuser".to_vec(), cmds: vec![], scripts: vec![], first_cut: 0, cycle: if rng.bool() { vec![] } else { vec![rng.range(1, 50) as usize] }, write_limit: usize::MAX, close_notify: rng.bool(), raw_limit: None, hs_variant: 0, app_override: Some(app.clone()), seqs: (1, 2), auth_reject: None, record_per_command: false, write_fault: None };
+            let c = super::c18::TlsCase { tls13: rng.bool(), with_cert: false, server_mode: 0, user: b"tlsuser".to_vec(), cmds: vec![], scripts: vec![], first_cut: 0, cycle: if rng.bool() { vec![] } else { vec![rng.range(1, 50) as usize] }, write_limit: usize::MAX, close_notify: rng.bool(), raw_limit: None, hs_variant: 0, app_override: Some(app.clone()), seqs: (1, 2), auth_reject: None, record_per_command: false, write_fault: None, buffer_writes: rng.bool() };
             let o = match super::c18::run_tls(m, &c) {
                 Ok(o) => o,
                 Err(e) => {
@@ -667,6 +667,86 @@ pub fn run(ctx: &Ctx) -> Report {
         });
         rep.merge(r);
     }
+
+    // ---- (b7) well-formed commands that are entitled to NO reply (long data, close) aimed at statements
+    //      that are live, closed, never prepared or at parameter indexes out of range, with ordinary
+    //      commands behind them: the outcome is an error return or replies to exactly the commands that
+    //      have one - a byte more is a reply nobody asked for, and every later reply is then read as
+    //      the answer to the wrong command
+    let n = if ctx.miri { 3 } else { ctx.n(1500, 40_000) };
+    let r = par_cases(ctx, "C20", "no-reply-commands", n, |rng, i, rep| {
+        let mut cmds = vec![Cmd::prepare(b"select ?")];
+        let mut scripts = vec![Script::PrepOk { id: 1, params: param_cols(2), cols: vec![] }];
+        let mut shape = String::new();
+        let mut closed = false;
+        for _ in 0..rng.range(1, 5) {
+            match rng.below(7) {
+                0 => {
+                    cmds.push(Cmd::long_data(1, rng.below(2) as u16, &rng.bytes(5)));
+                    shape.push_str(if closed { "L(closed) " } else { "L(live) " });
+                }
+                1 => {
+                    cmds.push(Cmd::long_data(1, *rng.pick(&[2u16, 3, 255, 256, 65_535]), &rng.bytes(3)));
+                    shape.push_str("L(index out of range) ");
+                }
+                2 => {
+                    cmds.push(Cmd::long_data(*rng.pick(&[0u32, 2, 77, u32::MAX]), 0, &rng.bytes(4)));
+                    shape.push_str("L(never prepared) ");
+                }
+                3 => {
+                    cmds.push(Cmd::close(1));
+                    closed = true;
+                    shape.push_str("C(1) ");
+                }
+                4 => {
+                    cmds.push(Cmd::close(*rng.pick(&[0u32, 2, 999, u32::MAX])));
+                    shape.push_str("C(unknown) ");
+                }
+                5 => {
+                    cmds.push(Cmd::query(b"q"));
+                    scripts.push(Script::Q(QProg::completed(1, 2)));
+                    shape.push_str("Q ");
+                }
+                _ => {
+                    cmds.push(Cmd::ping());
+                    shape.push_str("P ");
+                }
+            }
+        }
+        cmds.push(Cmd::query(b"last"));
+        scripts.push(Script::Q(QProg::completed(3, 4)));
+        cmds.push(Cmd::ping());
+        let mut case = Case::new(cmds, scripts);
+        if rng.bool() {
+            case.arrival = Arrival::Pipelined(1);
+        }
+        let obs = run_case(&case);
+        rep.evaluations += 1;
+        let what = "no-reply commands";
+        let d = || J::obj().set("commands", shape.clone()).set("outcome", obs.outcome.describe());
+        if i == 0 {
+            rep.sample(d());
+        }
+        let before = rep.violations.len();
+        judge(&obs, what, rep, &d);
+        if rep.violations.len() > before || matches!(obs.outcome, Outcome::Panic { .. }) {
+            return;
+        }
+        // exactly one reply per command that has one, among the commands the server got to
+        if let Ok((_, msgs, dec)) = decode_output(&obs) {
+            if dec.used < msgs.len() && dec.stop.is_none() {
+                rep.violations.push(viol("C20", "C20 unsolicited-reply".into(), format!("{} message(s) left over after every reply-expecting command had its reply (first leftover starts 0x{:02x}): a command that has no reply was answered", msgs.len() - dec.used, msgs[dec.used].payload.first().copied().unwrap_or(0)), d()));
+                return;
+            }
+            let owed = obs.kinds.iter().filter(|k| k.expects_reply()).count();
+            if matches!(obs.outcome, Outcome::Ok) && dec.resps.len() != owed {
+                rep.violations.push(viol("C20", "C20 reply-count".into(), format!("run_on returned Ok; {} replies for {} commands that have one", dec.resps.len(), owed), d()));
+                return;
+            }
+            rep.counters.inc("no_reply_conversations_checked");
+        }
+    });
+    rep.merge(r);
 
     // ---- (c) random bytes
     let n = if ctx.miri { 6 } else { ctx.n(20_000, 2_000_000) };
